@@ -16,7 +16,9 @@ def c15_static(src):
     # function-local / namespace-scope non-const statics
     hits = [(l, t) for l, t in _scan(src, r'(?m)^[ \t]*static\s+(?!const\b|constexpr\b|_assert|const\s)[^;(]*;')]
     out.append(dict(kind='semantic', id='C15/no-mutable-static', ok=not hits, desc='no static object that is not const/constexpr', detail=hits[:5], line=hits[0][0] if hits else None))
-    hits = _scan(src, r'(?m)^[ \t]*(?:inline\s+)?(?!constexpr|const|static|using|typedef|template|return|namespace|struct|class|enum|friend|public|private|protected|#|\}|\{|//)[A-Za-z_][\w:<>]*\s+\w+\s*(=[^;]*)?;\s*$')
+    # namespace-scope `inline` variables that are not const/constexpr (C++17 inline variables are shared by every translation unit and thread)
+    hits = _scan(src, r'(?m)^[ \t]*inline\s+(?!constexpr\b|const\b)(?:[\w:]+(?:<[^;()]*>)?[\s&*]+)+\w+\s*(=[^;()]*(\{[^;]*\})?)?;')
+    out.append(dict(kind='semantic', id='C15/no-mutable-inline-variable', ok=not hits, desc='no `inline` variable that is not const/constexpr (shared mutable state)', detail=hits[:5], line=hits[0][0] if hits else None))
     # parse entry points are const members
     for name in ('parse', 'context_parse', 'write_diag_str'):
         ms = list(re.finditer(r'constexpr\s+[\w:<>\s]+?\b%s\s*\(' % name, src.text))
